@@ -1626,7 +1626,7 @@ MODULAR_META = {
     'c03_glue_nopanic': {'bounds': ['c03_glue_nopanic: the auto-detecting entry point and the PartialResult impls on every pair of dedicated-parser results']},
     'c08_prepare': {'bounds': ['c08: Display for v1::Addresses decoded from its MIR template constant; every address value (std Display/FromStr of the address types as contract axioms)']},
 }
-_BUILDER_BOUND = 'builder histories: every sequence of at most %d calls from {set_length(Some), set_length(None), reserve_capacity, write_payload(u8|u16|&[u8]|Type), write_tlv, write_payloads} after new / with_addresses(IPv4) (Unix for <= 1 call), ended by build; all values symbolic, payload sizes unbounded integers (Vec as segment list)'
+_BUILDER_BOUND = 'builder histories: every sequence of at most %d calls from {set_length(Some), set_length(None), reserve_capacity, write_payload(u8|u16|&[u8]|Type|hand-built TypeLengthValue), write_tlv, write_payloads} after new / with_addresses(IPv4) (Unix for <= 1 call), ended by build; all values symbolic, payload sizes unbounded integers (Vec as segment list)'
 for _n, _k in (('c09_builder_q', 2), ('c09_builder_t', 3), ('c10_builder_q', 2), ('c10_builder_t', 3), ('c20_builder_q', 2), ('c20_builder_t', 3), ('c07_builder_q', 1), ('c07_builder_t', 2)):
     MODULAR_META[_n] = {'bounds': [_BUILDER_BOUND % _k],
                         'functions': ['v2::Builder::{new, with_addresses, set_length, reserve_capacity, write_payload, write_payloads, write_tlv, write_internal, write_header, build}', 'v2::Writer::{from, finish, write}', 'WriteToHeader impls (u8, u16, [u8], TypeLengthValue, (T, &[u8]), Type, Addresses, &T)'],
